@@ -145,8 +145,19 @@ TXNS = {
                field={'kind': 'ACH', 'memo': 'PROJ:x1'}, source='Card', location='WA'),
     't2': dict(description='Charlie Shop 99', amount=30.0, date=datetime.date(2024, 12, 31),
                field=None, source='Bank', location=None),
+    # two statement rows can agree in everything a statement always has (description, amount, date, source, location) and
+    # still be different transactions: t3 is t1 with other captured columns, t4 is t2 looked up in other supplemental data
+    't3': dict(description='APLPAY ALFA STORE #123', amount=50.0, date=datetime.date(2025, 3, 15),
+               field={'kind': 'wire', 'memo': 'other'}, source='Card', location='WA'),
+    't4': dict(description='Charlie Shop 99', amount=30.0, date=datetime.date(2024, 12, 31),
+               field=None, source='Bank', location=None, ds='alt'),
 }
 DATA_SOURCES = {'orders': [{'item': 'Widget', 'amount': 30.0}, {'item': 'Gadget', 'amount': 50.0}]}
+DATA_SOURCES_ALT = {'orders': [{'item': 'Paperback', 'amount': 30.0}, {'item': 'Tent', 'amount': 2000.0}]}
+
+
+def _ds(t):
+    return DATA_SOURCES_ALT if t.get('ds') == 'alt' else DATA_SOURCES
 EXPRS = {
     'e1': 'contains("ALFA") and amount > 20',
     'e2': 'regex("ch.rlie") or extract("#(\\\\d+)") == "123"',
@@ -183,14 +194,14 @@ def _classify(rules, transforms, tname):
     from tally.merchant_utils import normalize_merchant
     t = TXNS[tname]
     field = copy.deepcopy(t['field'])
-    ds = copy.deepcopy(DATA_SOURCES)
+    ds = copy.deepcopy(_ds(t))
     rules_before = copy.deepcopy([tuple(r[:4]) + (list(r[6]) if len(r) > 6 else None,) for r in rules])
     r = normalize_merchant(t['description'], rules, amount=t['amount'], txn_date=t['date'], field=field,
                            data_source=t['source'], transforms=transforms, location=t['location'], data_sources=ds)
     mi = r[3] or {}
     obs = [r[0], r[1], r[2], sorted(mi.get('tags', [])), json.dumps(mi.get('extra_fields', {}), sort_keys=True, default=str)]
     mutated = []
-    if ds != DATA_SOURCES:
+    if ds != _ds(t):
         mutated.append('data_sources')
     if rules_before != [tuple(r[:4]) + (list(r[6]) if len(r) > 6 else None,) for r in rules]:
         mutated.append('rules')
@@ -224,16 +235,34 @@ def _engine_match(c, tname):
     from tally.merchant_engine import parse_merchants
     t = dict(TXNS[tname])
     t['field'] = copy.deepcopy(t['field'])
+    dsrc = copy.deepcopy(_ds(t))
+    t.pop('ds', None)
     eng = parse_merchants(CONTENT[c], 'most_specific' if CONTENT[c].startswith('# mode: most_specific') else 'first_match')
-    r = eng.match(t, data_sources=copy.deepcopy(DATA_SOURCES))
+    r = eng.match(t, data_sources=dsrc)
+    return [r.merchant, r.category, r.subcategory, sorted(r.tags), json.dumps(r.extra_fields, sort_keys=True, default=str)]
+
+
+def _obj_new():
+    from tally.merchant_engine import MerchantEngine
+    return MerchantEngine()
+
+
+def _obj_match(eng, tname):
+    t = dict(TXNS[tname])
+    t['field'] = copy.deepcopy(t['field'])
+    dsrc = copy.deepcopy(_ds(t))
+    t.pop('ds', None)
+    r = eng.match(t, data_sources=dsrc)
     return [r.merchant, r.category, r.subcategory, sorted(r.tags), json.dumps(r.extra_fields, sort_keys=True, default=str)]
 
 
 def _evaluate(e, tname):
     from tally import expr_parser
     t = dict(TXNS[tname])
+    dsrc = _ds(t)
+    t.pop('ds', None)
     try:
-        return repr(expr_parser.evaluate_transaction(EXPRS[e], t, data_sources=DATA_SOURCES))
+        return repr(expr_parser.evaluate_transaction(EXPRS[e], t, data_sources=dsrc))
     except expr_parser.ExpressionError as ex:
         return 'ExpressionError'
 
@@ -253,6 +282,10 @@ def _fresh_ref(item):
             return (kind, x, tname), _classify(rules, transforms, tname)[0]
         if kind == 'match':
             return (kind, x, tname), _engine_match(x, tname)
+        if kind == 'objmatch':
+            eng = _obj_new()
+            eng.parse(CONTENT[x])
+            return (kind, x, tname), _obj_match(eng, tname)
         return (kind, x, tname), _evaluate(x, tname)
     finally:
         shutil.rmtree(d, ignore_errors=True)
@@ -266,6 +299,7 @@ def reference_table():
     for c in ROK:
         for t in TXNS:
             items.append(('match', c, t))
+            items.append(('objmatch', c, t))
     for e in EXPRS:
         for t in TXNS:
             items.append(('eval', e, t))
@@ -282,6 +316,7 @@ def _run_ops(item, ref):
         for p, c in disk0.items():
             paths[p] = _write(d, p, c)
         rules, transforms = [], []
+        engobj = _obj_new()         # ONE engine object for the whole behaviour: parse() may be called on it again and again
         for opi, op in enumerate(ops):
             o = op['op']
             ev = dict(op)
@@ -299,6 +334,10 @@ def _run_ops(item, ref):
                     ev['obs'] = _engine_match(op['c'], op['t'])
                 elif o == 'eval':
                     ev['obs'] = _evaluate(op['e'], op['t'])
+                elif o == 'objparse':
+                    engobj.parse(CONTENT[op['c']])
+                elif o == 'objmatch':
+                    ev['obs'] = _obj_match(engobj, op['t'])
                 elif o == 'clear':
                     from tally.merchant_utils import clear_engine_cache
                     clear_engine_cache()
@@ -323,6 +362,7 @@ def _judge(ck, name, disk0, events, ref, origin):
     must have decided: the one the last Load returned)."""
     disk = dict(disk0)
     passed = 'empty'
+    objc = None
     hist = []
     for ev in events:
         o = ev['op']
@@ -362,6 +402,18 @@ def _judge(ck, name, disk0, events, ref, origin):
                              {'behaviour': hist, 'disk0': disk0, 'expected': ref[('match', ev['c'], ev['t'])], 'observed': ev['obs']},
                              'engine match differs from fresh process')
                 return False
+        elif o == 'objparse':
+            objc = ev['c']
+        elif o == 'objmatch':
+            if 'by' in ev and origin == 'tlc' and ev['by'] != objc:
+                raise core.Machinery('harness and spec disagree on the engine object content: %s vs %s' % (ev['by'], objc))
+            want = ref[('objmatch', objc, ev['t'])] if objc else None
+            if ev['obs'] != want:
+                ck.violation({'site': 'MerchantEngine.parse+match', 'clause': 'reused-engine-object'},
+                             {'behaviour': hist, 'disk0': disk0, 'expected': want, 'observed': ev['obs'], 'parsed_last': objc},
+                             'an engine object that parsed %s last matches %s as %s; a fresh engine that parsed only %s gives %s'
+                             % (objc, ev['t'], ev['obs'], objc, want))
+                return False
         elif o == 'eval':
             if ev['obs'] != ref[('eval', ev['e'], ev['t'])]:
                 ck.violation({'site': 'evaluate_transaction', 'clause': 'result'},
@@ -385,8 +437,13 @@ def _random_behaviour(rnd, n):
             ops.append({'op': 'load', 'p': rnd.choice(list(disk0) + ['none'])})
         elif r < 0.75:
             ops.append({'op': 'classify', 't': rnd.choice(list(TXNS))})
-        elif r < 0.85:
+        elif r < 0.82:
             ops.append({'op': 'match', 'c': rnd.choice(ROK), 't': rnd.choice(list(TXNS))})
+        elif r < 0.88:
+            ops.append({'op': 'objparse', 'c': rnd.choice(ROK)})
+        elif r < 0.93:
+            if any(x['op'] == 'objparse' for x in ops):
+                ops.append({'op': 'objmatch', 't': rnd.choice(list(TXNS))})
         else:
             ops.append({'op': 'eval', 'e': rnd.choice(list(EXPRS)), 't': rnd.choice(list(TXNS))})
     return disk0, ops
@@ -397,12 +454,14 @@ def run(ck):
     ck.assumptions += ['rule-file semantics is uninterpreted in Process.tla: the reference result for (rule set, transaction) '
                        'comes from the real code run in a freshly forked interpreter',
                        'fixed concrete world: 2 valid .rules contents with identical rule names/expression texts but different '
-                       'meaning, 1 unparsable .rules, 2 legacy CSV contents, missing files, 2 transactions, 2 expressions']
+                       'meaning, 1 unparsable .rules, 2 legacy CSV contents, missing files, 4 transactions (two pairs that agree in description/amount/date/source/location and differ in captured columns resp. supplemental data), 14 expressions']
     # 1. model: the intended protocol satisfies C07; the two deviant protocols are refuted (non-vacuity)
     res = tlc.run('MC_Process', 'MC_Process_intended.cfg', coverage=True)
     ck.expect_model_ok('MC_Process/intended', res)
     for impl in ('pinned', 'bypath'):
         ck.expect_model_violation('MC_Process/' + impl, tlc.run('MC_Process', 'MC_Process_%s_neg.cfg' % impl), 'HistoryIndependent')
+    ck.expect_model_ok('MC_Process/obj', tlc.run('MC_Process', 'MC_Process_obj.cfg'))
+    ck.expect_model_violation('MC_Process/staleaux', tlc.run('MC_Process', 'MC_Process_staleaux_neg.cfg'), 'ObjHistoryIndependent')
     ref = reference_table()
     ck.sample({'fresh_process_reference': {'%s/%s/%s' % k: v for k, v in list(ref.items())[:4]}})
     # 2. spec -> code: behaviours generated by TLC, executed in one interpreter each
@@ -432,7 +491,7 @@ def run(ck):
         ck.case(json.dumps([{k: v for k, v in e.items() if k in ('op', 'p', 'c', 't', 'e')} for e in events]),
                 nontrivial=len(loads) >= 2 and 'classify' in kinds, n=0)
         _judge(ck, name, disk0, events, ref, 'tlc')
-    if not {'write', 'load', 'classify', 'match', 'eval'} <= seen_actions:
+    if not {'write', 'load', 'classify', 'match', 'eval', 'objparse', 'objmatch'} <= seen_actions:
         raise core.Machinery('simulated behaviours never took some action: %s' % seen_actions)
     ck.sample({'tlc_behaviour': [{k: v for k, v in e.items() if k != 'mutated'} for e in results[0][2][:6]]})
     # 3. code -> spec: random histories (not from TLC), recorded and validated by Trace_Process
@@ -453,6 +512,16 @@ def run(ck):
                 ops = [{'op': 'load', 'p': 'a.rules'}, {'op': 'classify', 't': 't1'}] + [{'op': 'eval', 'e': 'e1', 't': 't2'}] * pad + \
                       [{'op': 'write', 'p': 'a.rules', 'c': y}, {'op': 'load', 'p': 'a.rules'}, {'op': 'classify', 't': 't1'}, {'op': 'classify', 't': 't2'}]
                 hists.append(('edit%d' % k, {'a.rules': x, 'b.rules': 'RMISSING', 'c.csv': 'KMISSING'}, ops))
+                k += 1
+    # the same on ONE engine object: parse x, match, parse y, match (every ordered pair; with and without a match in between)
+    for x in ROK:
+        for y in ROK:
+            if x == y:
+                continue
+            for mid in (['t1'], ['t1', 't2', 't3'], []):
+                ops = [{'op': 'objparse', 'c': x}] + [{'op': 'objmatch', 't': t} for t in mid] + [{'op': 'objparse', 'c': y}] + \
+                      [{'op': 'objmatch', 't': t} for t in ('t1', 't2', 't3', 't4')]
+                hists.append(('obj%d' % k, {'a.rules': 'RMISSING', 'b.rules': 'RMISSING', 'c.csv': 'KMISSING'}, ops))
                 k += 1
     results = par.fresh_map(_run_ops, hists, extra=(None,))
     # value table: every distinct observation gets an integer id so TLC compares ids
@@ -493,7 +562,7 @@ def run(ck):
         kinds = [e['op'] for e in events]
         ck.case(name + json.dumps(kinds), nontrivial=kinds.count('load') >= 2 and 'classify' in kinds, n=0)
     ck.extra['rule'] = ('behaviours: TLC -simulate over Process.tla (depth 16) and seeded random histories of 3..25 operations '
-                        '{write, load(.rules/.csv/missing/unparsable/None), classify, engine match, evaluate, clear}; each is run in '
+                        '{write, load(.rules/.csv/missing/unparsable/None), classify, engine match, evaluate, clear, parse / match on one long-lived engine object}; each is run in '
                         'ONE freshly forked interpreter and every result compared with a fresh-process reference; '
                         'non-trivial = at least two loads and a classify')
     ck.exhaustive = False
